@@ -101,21 +101,23 @@ impl<'a> BinaryInput for DeserializationContext<'a> {
     }
 
     fn read_bytes(&mut self, count: usize) -> Result<&[u8]> {
-        if self.current.pos + count > self.current.end {
-            Err(Error::InputEndedUnexpectedly)
-        } else {
-            let start = self.current.start + self.current.pos;
-            self.current.pos += count;
-            Ok(&self.input[start..(self.current.start + self.current.pos)])
+        match self.current.pos.checked_add(count) {
+            Some(end) if end <= self.current.end => {
+                let start = self.current.start + self.current.pos;
+                self.current.pos += count;
+                Ok(&self.input[start..(self.current.start + self.current.pos)])
+            }
+            _ => Err(Error::InputEndedUnexpectedly),
         }
     }
 
     fn skip(&mut self, count: usize) -> Result<()> {
-        if self.current.pos + count > self.current.end {
-            Err(Error::InputEndedUnexpectedly)
-        } else {
-            self.current.pos += count;
-            Ok(())
+        match self.current.pos.checked_add(count) {
+            Some(end) if end <= self.current.end => {
+                self.current.pos += count;
+                Ok(())
+            }
+            _ => Err(Error::InputEndedUnexpectedly),
         }
     }
 }
